@@ -12,10 +12,6 @@
                 marks the edge recursive or part of a tuple cycle (the list `cyc`, taken from the
                 real graph: edge/weight semantics of openfga/language are not re-derived).
    Store / model transformations:
-   relax_stale : memory.ReadUsersetTuples ignores the Conditions filter (C13 finding F6), and
-                check.buildIterator installs no condition filter when the edge only allows "no
-                condition": a userset tuple carrying a condition the model does not allow for it
-                is then used as if it were unconditioned.
    keep_last_recursive : modelgraph.canApplyRecursiveOptimization keeps only the LAST recursive
                 edge of a relation and ResolveRecursive drops every recursive edge from the rest:
                 a relation with two recursive edges loses all but the last one (object and
@@ -145,34 +141,6 @@ Section V2Sem.
   Definition lfp_q : valuation * bool := run_strata_q O (S (max_level m)) (round_fuel atoms) [].
   Definition holds3_q (o : obj) (r : rid) : b3 := atomval_q (fst lfp_q) o r.
 End V2Sem.
-
-(* ---- relax_stale ---- *)
-(* restrictions of the tuple's relation that match the tuple's userset type#relation *)
-Definition matching_userset_restr (rs : list restriction) (o' : obj) (r' : rid) : list restriction :=
-  filter (fun d => N.eqb (r_type d) (otype o') && match r_kind d with RSet x => N.eqb x r' | _ => false end) rs.
-
-Definition stale_userset (m : model) (t : tuple) : bool :=
-  negb (N.eqb (t_cond t) 0) &&
-  match t_sub t with
-  | SSet o' r' =>
-      match get_relation m (otype (t_obj t)) (t_rel t) with
-      | Some rd =>
-          let ms := matching_userset_restr (rd_restr rd) o' r' in
-          match ms with
-          | [] => false
-          | _ => forallb (fun d => N.eqb (r_cond d) 0) ms
-          end
-      | None => false
-      end
-  | _ => false
-  end.
-
-Definition relax_stale (m : model) (store : list tuple) : list tuple :=
-  map (fun t => if stale_userset m t
-                then {| t_obj := t_obj t; t_rel := t_rel t; t_sub := t_sub t; t_cond := 0; t_ceval := T |}
-                else t) store.
-
-Definition has_stale (m : model) (store : list tuple) : bool := existsb (stale_userset m) store.
 
 (* ---- keep_last_recursive ---- *)
 (* recursive leaves of relation t#r, in the order of the weighted graph's edges: the rewrite's
